@@ -30,6 +30,10 @@ def main(argv: List[str]) -> int:
             nm = next((v for k, v in m.items() if k.endswith(".name.s")), None)
             return True, {"key": f"{gh.RUST_REL}::lsp_to_base_types:post", "what": f"rust lsp_to_base_types maps base type {nm!r} differently from the statement's mapping ({gh.RUST_BASE.get(nm)!r}) or raises", "base_type": nm}
         verify(run, stats, world, interp, fi, c, f"{gh.RUST_REL}::lsp_to_base_types", on_fail, lambda msg: run.notes.append(f"lsp_to_base_types outside the verified subset ({msg}); the item-level comparison of every emitted type stands in"))
+    from lib.helpers_verify import verify_helper_items
+
+    w_, i_, items_ = gh.rust_special_items()
+    verify_helper_items(run, stats, w_, i_, items_)
     # ---- evaluated: postcondition of generate_lib_rs on the current generator's output and on the committed file
     tmp = gen.scratch()
     n = 0
